@@ -33,8 +33,8 @@ func InitStream(p *xml.Decoder) (sessionID string, err error) {
 
 			// Parse XMPP stream attributes
 			for _, attrs := range elem.Attr {
-				switch attrs.Name.Local {
-				case "id":
+				// the stream id is the unqualified attribute: xml:id or x:id are something else
+				if attrs.Name.Space == "" && attrs.Name.Local == "id" {
 					sessionID = attrs.Value
 				}
 			}
